@@ -6,6 +6,7 @@
 //   num_constraint_composition_columns   with d = (highest evaluation degree) - (n - exemptions) the degree of the quotient by the
 //                 transition divisor, the result c is the LEAST c >= 1 with c * n >= d + 1: the c columns of n coefficients hold all
 //                 d + 1 coefficients of the composition polynomial (nothing is cut off) and no column is surplus.
+// Second part (below): AirContext::set_num_transition_exemptions and theorem_columns_fit.
 // Literal rewrites (listed): the loop header `for degree in self.main…iter().chain(self.aux…iter())` becomes a loop over
 // `chain_degs(main, aux)` - a shim for Iterator::chain whose assumed contract is "the first list followed by the second";
 // `for cycle_length in self.cycles.iter()` binds the dereferenced value (Verus has no arithmetic on `&usize`);
@@ -196,6 +197,96 @@ impl AirContext {
     {
         /*@@body*/
     }
+}
+
+// ---------------------------------------------------------------------------------------------------------------------
+// AirContext::set_num_transition_exemptions (air/src/air/context.rs): the validation of the exemption count. A documented
+// panic never returns (`documented_panic`), so the post-condition states what holds WHENEVER the function returns: the count
+// is in 1..=n/2+1, the degree of the quotient of EVERY constraint by the transition divisor is at most ce_domain_size - 1
+// (so the composition polynomial is determined by its evaluations over the constraint evaluation domain), the count is
+// stored and nothing else changes. Literal rewrites (listed): the receiver `mut self` is the parameter `ctx` re-bound
+// as `this` (the installed Verus has no `mut self`); `assert!(c, ..)` becomes `if !(c) { documented_panic(); }`; the chain of
+// the two degree lists as above.
+#[verifier::external_body]
+pub fn documented_panic() ensures false { panic!() }
+
+pub struct AirContextFull {
+    pub main_transition_constraint_degrees: Vec<TransitionConstraintDegree>,
+    pub aux_transition_constraint_degrees: Vec<TransitionConstraintDegree>,
+    pub trace_len: usize,
+    pub ce_blowup_factor: usize,
+    pub num_transition_exemptions: usize,
+}
+impl AirContextFull {
+    pub fn trace_len(&self) -> (r: usize) ensures r == self.trace_len { self.trace_len }
+    pub fn ce_domain_size(&self) -> (r: usize)
+        requires self.trace_len * self.ce_blowup_factor <= usize::MAX
+        ensures r == self.trace_len * self.ce_blowup_factor
+    { self.trace_len * self.ce_blowup_factor }
+}
+pub open spec fn all_degs_full(c: AirContextFull) -> Seq<TransitionConstraintDegree> {
+    c.main_transition_constraint_degrees@ + c.aux_transition_constraint_degrees@
+}
+pub open spec fn ctx_ok(c: AirContextFull) -> bool {
+    &&& c.trace_len >= 1
+    &&& c.ce_blowup_factor >= 1
+    &&& c.trace_len * c.ce_blowup_factor + c.trace_len <= usize::MAX
+    &&& forall|j: int| 0 <= j < all_degs_full(c).len() ==> deg_ok(#[trigger] all_degs_full(c)[j], c.trace_len as int)
+    // what AirContext::new establishes by choosing ce_blowup_factor >= every degree's min_blowup_factor
+    &&& forall|j: int| 0 <= j < all_degs_full(c).len() ==>
+            eval_deg(#[trigger] all_degs_full(c)[j], c.trace_len as int) <= c.trace_len * c.ce_blowup_factor - 1 + c.trace_len
+}
+
+//@@ source air/src/air/context.rs
+//@@ extract anchor="pub fn set_num_transition_exemptions(mut self, n: usize) -> Self"
+//@@ rewrite-re "assert!\(\s*(n <= max_exemptions),[^;]*\)(\s*\})" => "if !(\1) { documented_panic(); }\2"
+//@@ rewrite-re "assert!\(\s*([^,]+),[^;]*\);" => "if !(\1) { documented_panic(); }"
+//@@ rewrite-re "for degree in self\s*\.main_transition_constraint_degrees\s*\.iter\(\)\s*\.chain\(self\.aux_transition_constraint_degrees\.iter\(\)\)\s*\{" => "let all_degrees = chain_degs(&self.main_transition_constraint_degrees, &self.aux_transition_constraint_degrees); for degree_ref in all_degrees.iter() { let degree = *degree_ref;"
+//@@ rewrite-re "\bself\b" => "this"
+//@@ itername 1 it
+//@@ loop 1
+//@@|        invariant
+//@@|            this == ctx, ctx_ok(ctx),
+//@@|            all_degrees@.len() == all_degs_full(ctx).len(),
+//@@|            forall|j: int| 0 <= j < all_degrees@.len() ==> *(#[trigger] all_degrees@[j]) == all_degs_full(ctx)[j],
+//@@|            0 <= it.index@ <= all_degrees@.len(),
+//@@|            forall|j: int| 0 <= j < it.index@ ==>
+//@@|                eval_deg(#[trigger] all_degs_full(ctx)[j], ctx.trace_len as int) - (ctx.trace_len - n) <= ctx.trace_len * ctx.ce_blowup_factor - 1,
+//@@ loopstart 1
+//@@|        proof {
+//@@|            assert(*degree_ref == all_degrees@[it.index@]); assert(**degree_ref == all_degs_full(ctx)[it.index@]);
+//@@|            assert(ctx.trace_len * ctx.ce_blowup_factor >= 1) by (nonlinear_arith) requires ctx.trace_len >= 1, ctx.ce_blowup_factor >= 1;
+//@@|        }
+pub fn set_num_transition_exemptions(ctx: AirContextFull, n: usize) -> (r: AirContextFull)
+    requires ctx_ok(ctx)
+    ensures
+        1 <= n <= ctx.trace_len / 2 + 1,
+        forall|j: int| 0 <= j < all_degs_full(ctx).len() ==>
+            eval_deg(#[trigger] all_degs_full(ctx)[j], ctx.trace_len as int) - (ctx.trace_len - n) <= ctx.trace_len * ctx.ce_blowup_factor - 1,
+        r.num_transition_exemptions == n,
+        r.main_transition_constraint_degrees == ctx.main_transition_constraint_degrees,
+        r.aux_transition_constraint_degrees == ctx.aux_transition_constraint_degrees,
+        r.trace_len == ctx.trace_len, r.ce_blowup_factor == ctx.ce_blowup_factor,
+{
+    let mut this = ctx;
+    /*@@body*/
+}
+
+// The two contracts together (specification level): for a context that set_num_transition_exemptions returned, the columns
+// prescribed by num_constraint_composition_columns fit the constraint evaluation domain - columns <= ce_blowup_factor - so the
+// polynomial interpolated from the ce_domain_size evaluations has no coefficient beyond the committed columns and none is cut off.
+proof fn theorem_columns_fit(n: int, b: int, d: int, c: int)
+    requires
+        n >= 1, b >= 1, 0 <= d <= n * b - 1,          // quotient degree at most ce_domain_size - 1 (set_num_transition_exemptions)
+        c >= 1, c * n >= d + 1, c == 1 || (c - 1) * n < d + 1,   // num_constraint_composition_columns
+    ensures
+        c <= b, c * n <= n * b,
+{
+    if c > b {
+        assert((c - 1) * n >= b * n) by (nonlinear_arith) requires c - 1 >= b, n >= 1;
+        assert(b * n == n * b) by (nonlinear_arith);
+    }
+    assert(c * n <= n * b) by (nonlinear_arith) requires c <= b, n >= 1;
 }
 
 // canary: must FAIL (a column count that is always 1 is not what the contract says)
